@@ -26,6 +26,9 @@ OPS = {"C03": OPS_C03, "C04": OPS_C04, "C05": OPS_C05, "C16": OPS_C16}
 
 # minimal histories of the findings made so far (run first on every domain)
 CORPUS = [
+    # dis_interval_domain: normalize() took a leading top interval for a duplicate of its sentinel (domall-13):
+    # ({-2} | [0,2]) widen ([-3,-1] | {2}) was [0,2]
+    "hist 4 2 ; assume 0 2 C le E 1 -1 1 -2 C le E 1 1 1 2 ; assume 3 2 C le E 1 -1 1 0 C le E 1 1 1 -2 ; join 0 0 3 ; assume 1 2 C le E 1 -1 1 2 C le E 1 1 1 -2 ; top 3 ; assume 3 2 C le E 1 -1 1 -3 C le E 1 1 1 1 ; join 1 1 3 ; widen 2 0 1 ; q_leq 0 2 ; q_leq 1 2 ; q_csts 2",
     # powerset inclusion smashed the right operand: {x=5} <= {x=0 or x=10} (domall-12)
     "hist 3 2 ; assign 0 0 E 0 5 ; assign 1 0 E 0 0 ; assign 2 0 E 0 10 ; join 1 1 2 ; q_leq 0 1 ; q_entails 1 C ne E 1 1 0 -5 ; q_csts 1",
     # split_oct::assign left x unchanged (domall-1)
